@@ -138,7 +138,8 @@ CLAIMED["C04"] = dict(
     "them (same interval, same offset) and the resulting tables are exactly the re-keyed ones; remove_block drops "
     "exactly the removed block's entries; over a whole delete() the symbolic expressions of the block's interval are "
     "exactly the shifted ones (in front: same offset, behind: moved down by the deleted length, inside: gone) and "
-    "no other interval changes." + EMOD_TIE + " Partial: patch expressions (assembler output) and "
+    "no other interval changes; over a whole insert() they are the shifted old ones with the patch's expressions "
+    "set at block.offset + offset + k, and no other interval the module had changes." + EMOD_TIE + " Partial: patch expressions (assembler output) and "
     "join_byte_intervals' table moves are covered by the oracle only.",
     technique=EMOD_TECH,
     design="DESIGN.md#c04",
